@@ -1,8 +1,9 @@
 import Gv.Proofs.BagRef10
 import Gv.Proofs.BagRefExt
+import Gv.Proofs.BagRefExt2
 /-!
 Names stay pairwise distinct (C01): every operation other than the caller's own name edits
-(`Rename`, `AppendSeqIdentifier`, `CleanNames`, `TrimNames`, `TrimNamesAuto`) keeps the names of a
+(`Rename`, `RenameRegexp`, `AppendSeqIdentifier`, `CleanNames`, `TrimNames`, `TrimNamesAuto`) keeps the names of a
 container pairwise distinct — insertion renames a duplicate to a name that is not in use.
 -/
 namespace Gv.Proofs.BagAbs
@@ -93,6 +94,7 @@ def NameEdit : Op → Prop
   | .cleanNames => True
   | .trimNames _ => True
   | .trimAuto _ => True
+  | .renameRe _ _ => True
   | _ => False
 
 theorem ni_stepOp {b : Bag} (h : NI b) (hr : Rect b) (op : Op) (hne : ¬ NameEdit op)
@@ -245,5 +247,14 @@ theorem ni_stepOp {b : Bag} (h : NI b) (hr : Rect b) (op : Op) (hne : ¬ NameEdi
         · rename_i r hrr
           obtain ⟨k, i, n, _⟩ := compressBag_fields hrr
           exact h.keys k i n
+  | unalign =>
+    simp only [Model.stepOp]
+    split
+    · exact h
+    · exact ni_addAllIgnore _ (ni_empty rfl rfl)
+  | renameRe ok names => exact absurd trivial hne
+  | setAlpha a =>
+    obtain ⟨f1, f2, f3, -⟩ := setAlphabet_fields a b
+    exact h.congr f1 f2 f3
 
 end Gv.Proofs.BagAbs
